@@ -22,6 +22,7 @@ CONSTANTS
              \* (FALSE: as 0, the usual case)
   Population, \* target population argument (NA = not given)
   Filter,    \* filter statistics of the response, see Derived!Fraction
+  Overlaps,  \* TRUE: the response carries overlap / valid_overlap measures for its MR columns
   SimMode    \* TRUE under `tlc -simulate`: one random respondent per step
 
 (***************************************************************************)
